@@ -40,7 +40,7 @@ def devices():
     out = []
     for i, (a, p) in enumerate(PAIRS):
         for j, mb in enumerate(MAXB):
-            out.append(dict(avl_dw=a, port_dw=p, port_aw=30, base=BASES[(i + j) % 3], max_burst=mb, inc=2 if (i + 2 * j) % 7 == 0 else 1))
+            out.append(dict(avl_dw=a, port_dw=p, port_aw=(30, 12, 24, 9, 16)[(i + 3 * j) % 5], base=BASES[(i + j) % 3], max_burst=mb, inc=2 if (i + 2 * j) % 7 == 0 else 1))
     return out
 
 
@@ -52,7 +52,13 @@ def tag(cfg):
 def stims(draw, cfg, max_ops):
     over = cfg["max_burst"] <= 16 and draw(st.integers(0, 3)) == 0
     align = cfg["port_dw"] > cfg["avl_dw"] and draw(st.booleans())
-    return dict(ops=draw(av.avalon_ops(cfg, max_ops, over_max=over, align=align)), slave=draw(av.slave_sched()), idle_clear=draw(st.booleans()), aligned=align)
+    sl = draw(av.slave_sched())
+    if cfg["avl_dw"] != cfg["port_dw"]:
+        # stream-style native ports only where the repository composes the bridge with one: equal widths on the user side of a converter / CDC
+        # port (gen.py); the bridge's own converters always face a "sys" crossbar-style port (DESIGN 8.2)
+        for k in ("style", "wdepth", "rdepth", "wready"):
+            sl.pop(k, None)
+    return dict(ops=draw(av.avalon_ops(cfg, max_ops, over_max=over, align=align)), slave=sl, idle_clear=draw(st.booleans()), aligned=align)
 
 
 def diagnose(run, fs):
